@@ -5,6 +5,13 @@ nest node (Python tuples):
   ('text', s) ('echo', x) ('assign', x, s) ('capture', x, body) ('ifchanged', body)
   ('for', n, body) ('tablerow', n, body) ('include', body) ('includearr', n, body)
   ('render', body) ('renderfor', n, body) ('call', body)
+template inheritance (liquid.extra), SOURCE form - what the printer distributes over a chain of templates:
+  ('block', [top, ..., bottom])  a block tag standing in the template being printed, with its definitions, most derived first
+                                 (the last one is the tag's own body, the others go to the templates that extend it)
+  ('blockd', body)               a block tag that has no stack (no chain / inside a partial or macro): rendered in place
+  ('super',)                     {{ block.super }}
+and EXPANDED form (expand(): every block.super carries the next definition down, as Limits.node does):
+  ('blockx', top) ('blockd', body) ('superx', next) ('superu',)
 """
 
 from __future__ import annotations
@@ -18,7 +25,8 @@ IMPORTS = "PyPrims Limits"
 
 REPEATING = ("for", "tablerow", "includearr", "renderfor")
 PLAIN = ("include", "render", "call")
-BODY1 = ("ifchanged", "include", "render", "call")  # (kind, body)
+BODY1 = ("ifchanged", "include", "render", "call", "blockd", "blockx", "superx")  # (kind, body)
+ISOLATING = ("render", "renderfor", "call", "blockd")   # no block object with a parent in scope inside
 BODY2 = ("capture", "for", "tablerow", "includearr", "renderfor")  # (kind, arg, body)
 
 DEFAULT_DEPTH = 30
@@ -35,12 +43,19 @@ def body_of(n):
 
 # ------------------------------------------------------------------ printers
 class Printer:
-    """nest -> (main source, {partial name: source}, data)."""
+    """nest (SOURCE form) -> the templates of a chain of `levels` templates + partials + data.
 
-    def __init__(self):
+    Template 0 is the one that is rendered; template i extends template i+1; the nest is the body of the LAST (base)
+    template.  A ('block', defs) standing in template j puts its last definition there and the m-1 overriding ones, as
+    top-level block tags, into templates j-m+1 .. j-1."""
+
+    def __init__(self, levels=1):
         self.parts = {}
         self.data = {}
         self.k = 0
+        self.levels = levels
+        self.extra = [[] for _ in range(levels)]
+        self.depth = [0] * levels
 
     def fresh(self, prefix):
         self.k += 1
@@ -50,47 +65,110 @@ class Printer:
         self.data[f"a{n}"] = list(range(n))
         return f"a{n}"
 
-    def seq(self, body):
-        return "".join(self.node(n) for n in body)
+    def seq(self, body, level=None):
+        """-> (text, deepest block nesting of the text)."""
+        out, d = [], 0
+        for n in body:
+            t, dn = self.node(n, level)
+            out.append(t)
+            d = max(d, dn)
+        return "".join(out), d
 
-    def node(self, n):
+    def part(self, body):
+        name = self.fresh("p")
+        self.parts[name] = self.seq(body)[0]
+        return name
+
+    def node(self, n, level=None):
         k = n[0]
         if k == "text":
-            return n[1]
+            return n[1], 0
         if k == "echo":
-            return f"{{{{ v{n[1]} }}}}"
+            return f"{{{{ v{n[1]} }}}}", 0
         if k == "assign":
-            return f"{{% assign v{n[1]} = '{n[2]}' %}}"
+            return f"{{% assign v{n[1]} = '{n[2]}' %}}", 0
+        if k == "super":
+            return "{{ block.super }}", 0
         if k == "capture":
-            return f"{{% capture v{n[1]} %}}" + self.seq(n[2]) + "{% endcapture %}"
+            t, d = self.seq(n[2], level)
+            return f"{{% capture v{n[1]} %}}" + t + "{% endcapture %}", d + 1
         if k == "ifchanged":
-            return "{% ifchanged %}" + self.seq(n[1]) + "{% endifchanged %}"
+            t, d = self.seq(n[1], level)
+            return "{% ifchanged %}" + t + "{% endifchanged %}", d + 1
         if k == "for":
-            return f"{{% for i in (1..{n[1]}) %}}" + self.seq(n[2]) + "{% endfor %}"
+            t, d = self.seq(n[2], level)
+            return f"{{% for i in (1..{n[1]}) %}}" + t + "{% endfor %}", d + 1
         if k == "tablerow":
-            return f"{{% tablerow i in (1..{n[1]}) %}}" + self.seq(n[2]) + "{% endtablerow %}"
+            t, d = self.seq(n[2], level)
+            return f"{{% tablerow i in (1..{n[1]}) %}}" + t + "{% endtablerow %}", d + 1
         if k in ("include", "render"):
-            name = self.fresh("p")
-            self.parts[name] = self.seq(n[1])
-            return f"{{% {k} '{name}' %}}"
+            return f"{{% {k} '{self.part(n[1])}' %}}", 0
         if k in ("includearr", "renderfor"):
-            name = self.fresh("p")
-            self.parts[name] = self.seq(n[2])
             tag = "include" if k == "includearr" else "render"
-            return f"{{% {tag} '{name}' for {self.arr(n[1])} %}}"
+            return f"{{% {tag} '{self.part(n[2])}' for {self.arr(n[1])} %}}", 0
         if k == "call":
             name = self.fresh("m")
-            return f"{{% macro {name} %}}" + self.seq(n[1]) + f"{{% endmacro %}}{{% call {name} %}}"
+            t, d = self.seq(n[1], None)     # a block tag inside a macro is rendered in the macro's own context: no stack
+            return f"{{% macro {name} %}}" + t + f"{{% endmacro %}}{{% call {name} %}}", d + 1
+        if k == "blockd":
+            assert level is None or self.levels == 1, "a block tag in a template of a chain has a stack"
+            name = self.fresh("b")
+            t, d = self.seq(n[1], None)
+            return f"{{% block {name} %}}" + t + "{% endblock %}", d + 1
+        if k == "block":
+            defs = n[1]
+            m = len(defs)
+            assert level is not None and self.levels >= 2 and 1 <= m <= level + 1, (level, m, self.levels)
+            name = self.fresh("b")
+            for i in range(m - 1):
+                li = level - (m - 1) + i
+                t, d = self.seq(defs[i], li)
+                self.extra[li].append(f"{{% block {name} %}}" + t + "{% endblock %}")
+                self.depth[li] = max(self.depth[li], d + 1)
+            t, d = self.seq(defs[m - 1], level)
+            return f"{{% block {name} %}}" + t + "{% endblock %}", d + 1
         raise ValueError(k)
 
 
-def to_source(main):
-    p = Printer()
-    src = p.seq(main)
-    return src, p.parts, p.data
+def to_source(main, levels=1):
+    """-> (source of the template to render, {name: source} of its parents and partials, data, block-nesting depths of
+    the chain's templates ([] when there is no chain))."""
+    p = Printer(levels)
+    base, d = p.seq(main, levels - 1)
+    if levels == 1:
+        return base, p.parts, p.data, []
+    p.depth[levels - 1] = max(p.depth[levels - 1], d)
+    srcs = []
+    for i in range(levels - 1):
+        srcs.append(f"{{% extends 'c{i + 1}' %}}" + "".join(p.extra[i]))
+    srcs.append(base + "".join(p.extra[levels - 1]))
+    for i in range(1, levels):
+        p.parts[f"c{i}"] = srcs[i]
+    return srcs[0], p.parts, p.data, list(p.depth)
+
+
+def expand(body, sup=()):
+    """SOURCE form -> EXPANDED form: sup = the definitions below the one being expanded."""
+    out = []
+    for n in body:
+        k = n[0]
+        if k == "super":
+            out.append(("superx", expand(sup[0], sup[1:])) if sup else ("superu",))
+        elif k == "block":
+            out.append(("blockx", expand(n[1][0], tuple(n[1][1:]))))
+        elif k == "blockd":
+            out.append(("blockd", expand(n[1], ())))
+        elif k in BODY1:
+            out.append((k, expand(n[1], sup)))
+        elif k in BODY2:
+            out.append((k, n[1], expand(n[2], sup)))
+        else:
+            out.append(tuple(n))
+    return out
 
 
 def g_node(n) -> str:
+    """EXPANDED form -> Limits.node."""
     k = n[0]
     if k == "text":
         return f"Text {g_str(n[1])}"
@@ -100,8 +178,11 @@ def g_node(n) -> str:
         return f"Assign {g_N(n[1])} {g_str(n[2])}"
     if k == "capture":
         return f"Capture {g_N(n[1])} {g_body(n[2])}"
+    if k == "superu":
+        return "SuperU"
     ctor = {"ifchanged": "IfChanged", "for": "For", "tablerow": "Tablerow", "include": "Include",
-            "includearr": "IncludeArr", "render": "Render", "renderfor": "RenderFor", "call": "Call"}[k]
+            "includearr": "IncludeArr", "render": "Render", "renderfor": "RenderFor", "call": "Call",
+            "blockx": "Block", "blockd": "BlockD", "superx": "Super"}[k]
     if k in BODY1:
         return f"{ctor} {g_body(n[1])}"
     return f"{ctor} {g_N(n[1])} {g_body(n[2])}"
@@ -109,6 +190,16 @@ def g_node(n) -> str:
 
 def g_body(body) -> str:
     return g_list(g_node(n) for n in body)
+
+
+def g_glob(glob) -> str:
+    """{'v0': 'text'} -> list (N * str)."""
+    def val(v):
+        if len(v) > 8 and v == v[0] * len(v):
+            return f"(repeat {ord(v[0])}%N {len(v)})"
+        return g_str(v)
+
+    return g_list(f"({g_N(int(k[1:]))}, {val(v)})" for k, v in sorted(glob.items()))
 
 
 MODES = ("strict", "warn", "lax")
@@ -144,18 +235,20 @@ class Limits:
                 f"l_depth := {g_Z(self.depth)}; l_nest := {g_Z(self.nest)} |}}")
 
 
-def g_case(lim: Limits, main, sizes) -> str:
-    return (f"{{| c_mode := {_G_MODE[lim.mode]}; c_lim := {lim.gallina()}; c_main := {g_body(main)}; "
-            f"c_sizes := {g_list(g_Z(z) for z in sizes)} |}}")
+def g_case(lim: Limits, main, sizes, chain=(), glob=None) -> str:
+    """main: EXPANDED form."""
+    return (f"{{| c_mode := {_G_MODE[lim.mode]}; c_lim := {lim.gallina()}; c_chain := {g_list(g_Z(z) for z in chain)}; "
+            f"c_main := {g_body(main)}; c_glob := {g_glob(glob or {})}; c_sizes := {g_list(g_Z(z) for z in sizes)} |}}")
 
 
 def g_limits(lim: "Limits") -> str:
     return (f"(Build_limits {g_opt(lim.loop, g_N)} {g_opt(lim.out, g_Z)} {g_opt(lim.ns, g_Z)} {g_Z(lim.depth)} {g_Z(lim.nest)})")
 
 
-def g_run(lim: "Limits", sizes) -> str:
-    """(mode, (limits, sizes)), compact when at most one limit is configured."""
-    return {"strict": "InS", "warn": "InW", "lax": "InL"}[lim.mode] + " " + _g_run(lim, sizes)
+def g_run(lim: "Limits", sizes, glob=None) -> str:
+    """Limits.run, compact when at most one limit is configured."""
+    r = {"strict": "InS", "warn": "InW", "lax": "InL"}[lim.mode] + " " + _g_run(lim, sizes)
+    return f"G {g_glob(glob)} ({r})" if glob else r
 
 
 def _g_run(lim: "Limits", sizes) -> str:
@@ -185,24 +278,25 @@ class Sweeps:
     that disagree are re-evaluated run by run."""
 
     def __init__(self):
-        self.groups = []  # (nest, printed, [(lim, sizes, obs, explained)])
+        self.groups = []  # (nest (SOURCE form), printed, [(lim, sizes, obs, explained, glob)])
 
     def group(self, nest, printed):
         self.groups.append((nest, printed, []))
 
-    def add(self, lim, sizes, obs, explained=False):
-        self.groups[-1][2].append((lim, sizes, obs, explained))
+    def add(self, lim, sizes, obs, explained=False, glob=None):
+        self.groups[-1][2].append((lim, sizes, obs, explained, glob))
 
     def runs(self):
         return sum(len(g[2]) for g in self.groups)
 
     def mismatches(self, ck, name, chunk=60):
-        """-> [(nest, printed, lim, sizes, obs)] for the runs on which model and implementation disagree and that
+        """-> [(nest, printed, lim, sizes, obs, glob)] for the runs on which model and implementation disagree and that
         no oracle violation already explains."""
         groups = [g for g in self.groups if g[2]]
-        cases = ["(Build_sweep " + g_body(nest) + " " + g_list(g_run(lim, sizes) for lim, sizes, _, _ in runs) + ")"
-                 for nest, _, runs in groups]
-        expected = [g_list(g_dobs_c(obs) for _, _, obs, _ in runs) for _, _, runs in groups]
+        cases = ["(Build_sweep " + g_list(g_Z(z) for z in printed[3]) + " " + g_body(expand(nest)) + " "
+                 + g_list(g_run(lim, sizes, glob) for lim, sizes, _, _, glob in runs) + ")"
+                 for nest, printed, runs in groups]
+        expected = [g_list(g_dobs_c(obs) for _, _, obs, _, _ in runs) for _, _, runs in groups]
         chunk = max(chunk, -(-len(groups) // 32))  # at most ~32 shards: loading the libraries costs as much as hundreds of runs
         mm = ck.coq_mismatches(name, IMPORTS, "run_sweep", "list_eqb dobs_eqb", "sweep", "list dobs", cases, expected, chunk=chunk)
         nruns = sum(len(g[2]) for g in groups)
@@ -212,12 +306,12 @@ class Sweeps:
         bad_groups = len(mm)
         for gi in mm[:6]:
             nest, printed, runs = groups[gi]
-            c2 = [f"(Build_case {_G_MODE[lim.mode]} {g_limits(lim)} {g_body(nest)} {g_list(g_Z(z) for z in sizes)})" for lim, sizes, _, _ in runs]
-            e2 = [g_dobs(obs) for _, _, obs, _ in runs]
+            c2 = [f"({g_case(lim, expand(nest), sizes, printed[3], glob)})" for lim, sizes, _, _, glob in runs]
+            e2 = [g_dobs(obs) for _, _, obs, _, _ in runs]
             for ri in ck.coq_mismatches(f"{name}_g{gi}", IMPORTS, "run_digest", "dobs_eqb", "case", "dobs", c2, e2, chunk=2000):
-                lim, sizes, obs, explained = runs[ri]
+                lim, sizes, obs, explained, glob = runs[ri]
                 if not explained:
-                    out.append((nest, printed, lim, sizes, obs))
+                    out.append((nest, printed, lim, sizes, obs, glob))
         ck.extra["model_mismatching_nests"] = bad_groups
         return out
 
@@ -283,13 +377,26 @@ def _template_class():
                     super().assign(key, val)
                     rec["ns"].append(self.get_size_of_locals())  # the engine's figure after a successful assignment
                 finally:
-                    # measured independently of the engine's bookkeeping: the local namespaces of this context
-                    # and of every context it was copied from
-                    total, c = 0, self
+                    # measured independently of the engine's bookkeeping: the local namespaces of every render context
+                    # that is in use at this moment - this one, every context it was copied from, and every context
+                    # some active call is still rendering with (a block suspended in block.super): the contexts that
+                    # the frames of the Python call stack refer to
+                    live = {}
+                    c = self
                     while c is not None:
-                        total += sum(sys.getsizeof(v, 1) for v in c.locals.values())
+                        live[id(c)] = c
                         c = c.parent_context
-                    rec["true"].append(total)
+                    f = sys._getframe(1)
+                    while f is not None:
+                        for v in f.f_locals.values():
+                            if isinstance(v, RenderContext):
+                                live[id(v)] = v
+                            elif type(v).__name__ == "BlockDrop":
+                                for c in (v.context, getattr(v, "render_context", None)):
+                                    if isinstance(c, RenderContext):
+                                        live[id(c)] = c
+                        f = f.f_back
+                    rec["true"].append(sum(sys.getsizeof(x, 1) for c in live.values() for x in c.locals.values()))
 
         class RecTemplate(BoundTemplate):
             context_class = RecContext
@@ -319,9 +426,12 @@ def make_env(lim: Limits, parts):
     return env
 
 
-def run_impl(main, lim: Limits, use_async: bool, printed=None, want_true=False):
-    """-> (obs, sizes) with obs = ('out', text, nslog) | ('err', class tag)."""
-    src, parts, data = printed or to_source(main)
+def run_impl(main, lim: Limits, use_async: bool, printed=None, want_true=False, glob=None):
+    """-> (obs, sizes) with obs = ('out', text, nslog) | ('err', class tag).  printed = to_source(main, levels);
+    glob: render arguments named like the template's variables."""
+    src, parts, data = (printed or to_source(main))[:3]
+    if glob:
+        data = dict(data, **glob)
     env = make_env(lim, parts)
     rec = env.verif_rec
     import warnings
@@ -340,61 +450,83 @@ def run_impl(main, lim: Limits, use_async: bool, printed=None, want_true=False):
 
 
 # ------------------------------------------------------------------ independent arithmetic on nests (oracles)
-def leaf_count(body, mult=1):
+# All on the EXPANDED form.  insup: is a block object with a parent block in scope?  {{ block.super }} renders the next
+# definition down where it is (every enclosing loop repeats it), and nothing where no such object is in scope.
+def _inner(n, insup):
+    """-> (body, insup inside it) of a construct that renders a body, or None."""
+    k = n[0]
+    if k == "superx":
+        return (n[1], True) if insup else None
+    if k == "blockx":
+        return n[1], True
+    b = body_of(n)
+    if b is None:
+        return None
+    return b, (False if k in ISOLATING else insup)
+
+
+def leaf_count(body, mult=1, insup=False):
     """Number of 'text' executions of an unlimited render (every construct runs its body len times)."""
     total = 0
     for n in body:
-        k = n[0]
-        if k == "text":
+        if n[0] == "text":
             total += mult
-        elif k in REPEATING:
-            total += leaf_count(n[2], mult * n[1])
-        elif body_of(n) is not None:
-            total += leaf_count(body_of(n), mult)
+            continue
+        r = _inner(n, insup)
+        if r is not None:
+            total += leaf_count(r[0], mult * n[1] if n[0] in REPEATING else mult, r[1])
     return total
 
 
-def max_loop_product(body, prod=1):
+def max_loop_product(body, prod=1, insup=False):
     """Largest product of enclosing lengths, own length included, over the repeating constructs a complete render enters."""
     best = 0
     for n in body:
-        k = n[0]
-        if k in REPEATING:
+        r = _inner(n, insup)
+        if r is None:
+            continue
+        if n[0] in REPEATING:
             if n[1] == 0:
                 continue
             p = prod * n[1]
-            best = max(best, p, max_loop_product(n[2], p))
-        elif body_of(n) is not None:
-            best = max(best, max_loop_product(body_of(n), prod))
+            best = max(best, p, max_loop_product(r[0], p, r[1]))
+        else:
+            best = max(best, max_loop_product(r[0], prod, r[1]))
     return best
 
 
-def max_leaf_product(body, prod=1):
+def max_leaf_product(body, prod=1, insup=False):
     """Largest product of enclosing lengths over the text leaves a complete render executes (0 if none)."""
     best = 0
     for n in body:
-        k = n[0]
-        if k == "text":
+        if n[0] == "text":
             best = max(best, prod)
-        elif k in REPEATING:
+            continue
+        r = _inner(n, insup)
+        if r is None:
+            continue
+        if n[0] in REPEATING:
             if n[1]:
-                best = max(best, max_leaf_product(n[2], prod * n[1]))
-        elif body_of(n) is not None:
-            best = max(best, max_leaf_product(body_of(n), prod))
+                best = max(best, max_leaf_product(r[0], prod * n[1], r[1]))
+        else:
+            best = max(best, max_leaf_product(r[0], prod, r[1]))
     return best
 
 
-def leaf_count_within(body, limit, mult=1, prod=1):
+def leaf_count_within(body, limit, mult=1, prod=1, insup=False):
     """Number of 'text' executions of an unlimited render whose product of enclosing lengths is <= limit."""
     total = 0
     for n in body:
-        k = n[0]
-        if k == "text":
+        if n[0] == "text":
             total += mult if prod <= limit else 0
-        elif k in REPEATING:
-            total += leaf_count_within(n[2], limit, mult * n[1], prod * n[1])
-        elif body_of(n) is not None:
-            total += leaf_count_within(body_of(n), limit, mult, prod)
+            continue
+        r = _inner(n, insup)
+        if r is None:
+            continue
+        if n[0] in REPEATING:
+            total += leaf_count_within(r[0], limit, mult * n[1], prod * n[1], r[1])
+        else:
+            total += leaf_count_within(r[0], limit, mult, prod, r[1])
     return total
 
 
@@ -417,34 +549,55 @@ def rand_text(rng, lo=1, hi=4, cr=True):
     return t
 
 
-def gen_tree(rng, maxdepth=3, lengths=(0, 1, 2, 3), depth=0, no_include=False, width=3, nvars=3):
+def gen_tree(rng, maxdepth=3, lengths=(0, 1, 2, 3), depth=0, no_include=False, width=3, nvars=3, level=None, indef=False, blocks=0.0):
+    """SOURCE form.  level: index of the chain template the text goes to (None: a partial, a macro, or no chain at
+    all); indef: inside a block definition ({{ block.super }} may occur); blocks: weight of block tags."""
     kinds = [k for k, w in _WEIGHTS for _ in range(w)]
+    if blocks:
+        kinds += ["block"] * int(14 * blocks)
+        if indef:
+            kinds += ["super"] * int(16 * blocks)
     out = []
     for _ in range(rng.randrange(1, width + 1)):
         k = rng.choice(kinds)
-        if depth >= maxdepth and k not in ("text", "echo", "assign"):
+        if depth >= maxdepth and k not in ("text", "echo", "assign", "super"):
             k = "text"
         if k in ("include", "includearr") and no_include and rng.random() < 0.9:
             k = "render" if k == "include" else "renderfor"
-        sub = lambda ni=no_include: gen_tree(rng, maxdepth, lengths, depth + 1, ni, width, nvars)  # noqa: E731
+
+        def sub(ni=no_include, lv=level, ind=indef, bl=blocks):
+            return gen_tree(rng, maxdepth, lengths, depth + 1, ni, width, nvars, lv, ind, bl)
+
         if k == "text":
             out.append(("text", rand_text(rng)))
         elif k == "echo":
             out.append(("echo", rng.randrange(nvars)))
         elif k == "assign":
             out.append(("assign", rng.randrange(nvars), rand_text(rng, 0, 6, cr=False)))
+        elif k == "super":
+            out.append(("super",))
         elif k == "capture":
             out.append(("capture", rng.randrange(nvars), sub()))
         elif k == "ifchanged":
             out.append(("ifchanged", sub()))
-        elif k in ("for", "tablerow", "includearr"):
+        elif k in ("for", "tablerow"):
             out.append((k, rng.choice(lengths), sub()))
+        elif k == "includearr":
+            out.append((k, rng.choice(lengths), sub(lv=None)))
         elif k == "renderfor":
-            out.append((k, rng.choice(lengths), sub(True)))
+            out.append((k, rng.choice(lengths), sub(True, None)))
         elif k == "include":
-            out.append((k, sub()))
-        else:  # render, call
-            out.append((k, sub(True)))
+            out.append((k, sub(lv=None)))
+        elif k == "block":
+            if level is None:
+                out.append(("blockd", sub(lv=None, ind=True)))      # no stack: block.super is undefined inside
+            else:
+                m = rng.randrange(1, min(3, level + 1) + 1)
+                out.append(("block", [sub(lv=level - (m - 1) + i, ind=True) for i in range(m)]))
+        elif k == "call":   # block tags are disabled in a macro call: rarely
+            out.append((k, sub(True, None, bl=blocks if rng.random() < 0.1 else 0.0)))
+        else:  # render
+            out.append((k, sub(True, None)))
     return normalize(out) if depth == 0 else out
 
 
@@ -455,6 +608,8 @@ def normalize(nest):
         k = n[0]
         if k == "text" and out and out[-1][0] == "text":
             out[-1] = ("text", out[-1][1] + n[1])
+        elif k == "block":
+            out.append((k, [normalize(d) for d in n[1]]))
         elif k in BODY1:
             out.append((k, normalize(n[1])))
         elif k in BODY2:
@@ -467,6 +622,9 @@ def normalize(nest):
 def shape_of(nest):
     out = []
     for n in nest:
+        if n[0] == "block":
+            out.append("block(" + " / ".join(shape_of(d) for d in n[1]) + ")")
+            continue
         b = body_of(n)
         out.append(n[0] if b is None else n[0] + "(" + shape_of(b) + ")")
     return " ".join(out)
@@ -476,10 +634,18 @@ def kinds_in(nest, acc=None):
     acc = set() if acc is None else acc
     for n in nest:
         acc.add(n[0])
+        if n[0] == "block":
+            for d in n[1]:
+                kinds_in(d, acc)
+            continue
         b = body_of(n)
         if b is not None:
             kinds_in(b, acc)
     return acc
+
+
+def has_blocks(nest):
+    return bool(kinds_in(nest) & {"block", "blockd", "super"})
 
 
 def sweep_values(hi, cap, rng):
